@@ -76,7 +76,8 @@ void run(Ctx &c) {
 	};
 	auto absent_key = [&]() -> uint64_t {
 		for(int tries = 0; tries < 6; tries++) { uint64_t k = key(); if(!ref.count(k)) return k; }
-		uint64_t k = (uint64_t(1) << 40) + nextv;     // fresh (values are never reused, so neither is this key)
+		uint64_t k = (uint64_t(1) << 40) + nextv;     // usually fresh (values are never reused) - but a tape may have chosen this very key before
+		while(large && ref.count(k)) k += 0x10001;
 		for(uint64_t j = 0; j < 16 && !large; j++) if(!ref.count(j)) { k = j; break; }
 		if(std::find(used.begin(), used.end(), k) == used.end() && used.size() < 256) used.push_back(k);
 		return k;
